@@ -51,7 +51,8 @@ class ModelRun(object):
                 self.truncated = 'out-of-contract: %s' % e
                 del self.lines[before:]
                 break
-            self.script_lines.append(line)
+            if line is not None:
+                self.script_lines.append(line)
             self.steps.append((op, self.lines[before:]))
 
     def flush_trace(self):
@@ -116,6 +117,13 @@ class ModelRun(object):
                 self.flush_trace()
                 self.lines.append('T %d' % e.kind)
             return 'I %d' % k
+        if o == 'mayfail':
+            # from here on a memory.grow beyond 1 GiB is executed: it may legitimately fail for lack of memory, so its expected
+            # line lists both outcomes; the model continues as if it had failed (scripts using this touch nothing size-dependent)
+            self.alt_grow = True
+            for inst in self.insts.values():
+                inst.may_fail_alt = True
+            return None
         if o == 'call':
             _, k, e, args = op
             inst = self.insts[k]
@@ -128,7 +136,11 @@ class ModelRun(object):
             try:
                 res = inst.invoke(fidx, list(args))
                 self.flush_trace()
-                self.lines.append('R ' + (fmt_val(res[0], rs[0]) if rs else 'void'))
+                if getattr(inst, 'alt_old', None) is not None and rs and rs[0] == I32:
+                    self.lines.append('R ffffffff || R %08x' % inst.alt_old)
+                    inst.alt_old = None
+                else:
+                    self.lines.append('R ' + (fmt_val(res[0], rs[0]) if rs else 'void'))
             except interp.Trap as ex:
                 self.stats['traps'] += 1
                 self.flush_trace()
@@ -172,6 +184,8 @@ class ModelRun(object):
 def line_matches(exp, act):
     if exp == act:
         return True
+    if ' || ' in exp:
+        return any(line_matches(e, act) for e in exp.split(' || '))
     if exp.endswith('nan32') and act[:-8] == exp[:-5] and len(act) >= 8:
         try:
             return interp.isnan32(int(act[-8:], 16))
